@@ -212,7 +212,17 @@ func (f *fan) update() {
 		// many points in request order (not id order) for every shard of the entry node at once
 		n = 40 + f.r.Intn(60)
 	}
-	f.updateVia(f.entry(), f.pick(n, 0.7))
+	ids := f.pick(n, 0.7)
+	if len(ids) > 0 && (f.wide || f.r.Intn(3) == 0) {
+		// the same point named more than once in one request: the entries are merged in request order
+		// (the last one wins), on whichever shard the point lives
+		for k := 1 + f.r.Intn(4); k > 0; k-- {
+			id := ids[f.r.Intn(len(ids))]
+			at := f.r.Intn(len(ids) + 1)
+			ids = append(ids[:at], append([]int{id}, ids[at:]...)...)
+		}
+	}
+	f.updateVia(f.entry(), ids)
 }
 
 func (f *fan) updateVia(n *cluster.ClusterNode, ids []int) {
